@@ -204,9 +204,7 @@ impl SqPackData {
     ///
     /// If the block of data is successfully parsed, it returns the file data - otherwise is None.
     pub fn read_from_offset(&mut self, offset: u64) -> Option<ByteBuffer> {
-        self.file
-            .seek(SeekFrom::Start(offset))
-            .expect("Unable to find offset in file.");
+        self.file.seek(SeekFrom::Start(offset)).ok()?;
 
         let file_info = FileInfo::read(&mut self.file).ok()?;
 
@@ -222,24 +220,22 @@ impl SqPackData {
     fn read_standard_file(&mut self, offset: u64, file_info: &FileInfo) -> Option<ByteBuffer> {
         let standard_file_info = file_info.standard_info.as_ref()?;
 
-        let mut blocks: Vec<Block> = Vec::with_capacity(standard_file_info.num_blocks as usize);
+        // the counts and sizes below come from the file, so nothing is reserved up front
+        let mut blocks: Vec<Block> = Vec::new();
 
         for _ in 0..standard_file_info.num_blocks {
             blocks.push(Block::read(&mut self.file).ok()?);
         }
 
-        let mut data: Vec<u8> = Vec::with_capacity(file_info.file_size as usize);
+        let mut data: Vec<u8> = Vec::new();
 
         let starting_position = offset + (file_info.size as u64);
 
-        for i in 0..standard_file_info.num_blocks {
-            data.append(
-                &mut read_data_block(
-                    &mut self.file,
-                    starting_position + (blocks[i as usize].offset as u64),
-                )
-                .expect("Failed to read data block."),
-            );
+        for block in &blocks {
+            data.append(&mut read_data_block(
+                &mut self.file,
+                starting_position.checked_add_signed(block.offset as i64)?,
+            )?);
         }
 
         Some(data)
@@ -284,14 +280,13 @@ impl SqPackData {
             for _ in 0..size {
                 let last_pos = &self.file.stream_position().ok()?;
 
-                let data =
-                    read_data_block(&self.file, *last_pos).expect("Unable to read block data.");
+                let data = read_data_block(&self.file, *last_pos)?;
                 // write to buffer
                 buffer.write_all(data.as_slice()).ok()?;
 
                 self.file
                     .seek(SeekFrom::Start(
-                        last_pos + (compressed_block_sizes[current_block] as u64),
+                        last_pos + (*compressed_block_sizes.get(current_block)? as u64),
                     ))
                     .ok()?;
                 current_block += 1;
@@ -314,7 +309,8 @@ impl SqPackData {
              size: u32,
              offset: u32,
              offsets: &mut [u32; 3],
-             data_sizes: &mut [u32; 3]| {
+             data_sizes: &mut [u32; 3]|
+             -> Option<()> {
                 if size != 0 {
                     let current_vertex_offset = buffer.position() as u32;
                     if i == 0 || current_vertex_offset != offsets[i - 1] {
@@ -325,27 +321,26 @@ impl SqPackData {
 
                     self.file
                         .seek(SeekFrom::Start(base_offset + (offset as u64)))
-                        .ok();
+                        .ok()?;
 
                     for _ in 0..size {
-                        let last_pos = self.file.stream_position().unwrap();
+                        let last_pos = self.file.stream_position().ok()?;
 
-                        let data = read_data_block(&self.file, last_pos)
-                            .expect("Unable to read raw model block!");
+                        let data = read_data_block(&self.file, last_pos)?;
 
-                        buffer
-                            .write_all(data.as_slice())
-                            .expect("Unable to write to memory buffer!");
+                        buffer.write_all(data.as_slice()).ok()?;
 
                         data_sizes[i] += data.len() as u32;
                         self.file
                             .seek(SeekFrom::Start(
-                                last_pos + (compressed_block_sizes[current_block] as u64),
+                                last_pos + (*compressed_block_sizes.get(current_block)? as u64),
                             ))
-                            .expect("Unable to seek properly.");
+                            .ok()?;
                         current_block += 1;
                     }
                 }
+
+                Some(())
             };
 
         // process all 3 lods
@@ -357,7 +352,7 @@ impl SqPackData {
                 model_file_info.offset.vertex_buffer_size[i],
                 &mut vertex_data_offsets,
                 &mut vertex_data_sizes,
-            );
+            )?;
 
             // TODO: process edges
 
@@ -368,7 +363,7 @@ impl SqPackData {
                 model_file_info.offset.index_buffer_size[i],
                 &mut index_data_offsets,
                 &mut index_data_sizes,
-            );
+            )?;
         }
 
         let header = ModelFileHeader {
@@ -397,10 +392,10 @@ impl SqPackData {
     fn read_texture_file(&mut self, offset: u64, file_info: &FileInfo) -> Option<ByteBuffer> {
         let texture_file_info = file_info.texture_info.as_ref()?;
 
-        let mut data: Vec<u8> = Vec::with_capacity(file_info.file_size as usize);
+        let mut data: Vec<u8> = Vec::new();
 
         // write the header if it exists
-        let mipmap_size = texture_file_info.lods[0].compressed_size;
+        let mipmap_size = texture_file_info.lods.first()?.compressed_size;
         if mipmap_size != 0 {
             let original_pos = self.file.stream_position().ok()?;
 
@@ -408,8 +403,15 @@ impl SqPackData {
                 .seek(SeekFrom::Start(offset + file_info.size as u64))
                 .ok()?;
 
-            let mut header = vec![0u8; texture_file_info.lods[0].compressed_offset as usize];
-            self.file.read_exact(&mut header).ok()?;
+            let header_size = texture_file_info.lods[0].compressed_offset as u64;
+            let mut header = Vec::new();
+            (&self.file)
+                .take(header_size)
+                .read_to_end(&mut header)
+                .ok()?;
+            if header.len() as u64 != header_size {
+                return None;
+            }
 
             data.append(&mut header);
 
@@ -429,7 +431,8 @@ impl SqPackData {
 
                 self.file.seek(SeekFrom::Start(original_pos)).ok()?;
 
-                running_block_total += self.file.read_le::<i16>().ok()? as u64;
+                running_block_total =
+                    running_block_total.checked_add_signed(self.file.read_le::<i16>().ok()? as i64)?;
             }
         }
 
